@@ -62,7 +62,7 @@ namespace
 
   struct Counters { uint64_t sync0_dofs = 0, shared_dofs = 0, three_way = 0, matvec_entries = 0, sol_entries = 0, iters = 0, levels = 0, transfer_entries = 0; } CNT;
 
-  struct RunCfg { wc::WorldCfg w; int solver = 0; int cycle = 0; int wait_order = 0; int splitter = 0; int trunc = 0; int shrink = 1; };
+  struct RunCfg { wc::WorldCfg w; int solver = 0; int cycle = 0; int wait_order = 0; int splitter = 0; int trunc = 0; int shrink = 1; int moved_ticket = 0; };
 
   // mass_op_: assemble the mass matrix / force functional instead of the Laplace problem (for spaces without gradients
   // across cells, e.g. discontinuous P0, whose gates have no neighbours at all)
@@ -265,6 +265,21 @@ namespace
         if(std::abs(a_dot - out.dot) > tol_dot) sim::fail("SCALAR_ASYNC", "dot_async with four scalar tickets in flight delivered " + std::to_string(a_dot) + ", the blocking dot " + std::to_string(out.dot));
         if(std::abs(a_nrm - out.norm2) > 1e-13 * (std::abs(out.norm2) + 1.0)) sim::fail("SCALAR_ASYNC", "norm2_async (sqrt flag) with four scalar tickets in flight delivered " + std::to_string(a_nrm) + ", the blocking norm2 " + std::to_string(out.norm2));
         if(a_max != out.gmax || a_min != out.gmin) sim::fail("SCALAR_ASYNC", "max_async/min_async with four scalar tickets in flight delivered " + std::to_string(a_max) + "/" + std::to_string(a_min) + ", the blocking calls " + std::to_string(out.gmax) + "/" + std::to_string(out.gmin));
+      }
+      if(rc.moved_ticket)
+      {
+        // a ticket may be moved while its reduction is in flight (the class has a move constructor and a move assignment
+        // that insist on "allreduce already called"): the moved-to ticket must deliver the result
+        auto t0 = gx.dot_async(gy);
+        auto t1 = std::move(t0);
+        Global::SynchScalarTicket<double> t2;
+        t2 = gx.norm2_async();
+        const double m_nrm = t2.wait();
+        const double m_dot = t1.wait();
+        double sabs = 0; for(Index d = 0; d < nd; ++d) sabs += std::abs(gx.local()(d) * gy.local()(d));
+        const double tol_dot = 1e-13 * (the_system_level.gate_sys.sum(sabs) + 1.0);
+        if(!(std::abs(m_dot - out.dot) <= tol_dot)) sim::fail("SCALAR_ASYNC_MOVED", "a dot_async ticket that was moved while in flight delivered " + std::to_string(m_dot) + ", the blocking dot " + std::to_string(out.dot));
+        if(!(std::abs(m_nrm - out.norm2) <= 1e-13 * (std::abs(out.norm2) + 1.0))) sim::fail("SCALAR_ASYNC_MOVED", "a norm2_async ticket that was move-assigned while in flight delivered " + std::to_string(m_nrm) + ", the blocking norm2 " + std::to_string(out.norm2));
       }
       the_system_level.matrix_sys.apply(gr, gx);
       for(Index d = 0; d < nd; ++d) out.ax.push_back(gr.local()(d));
@@ -608,6 +623,7 @@ namespace
       RunCfg rc = rc_in;
       rc.trunc = int(sim::cfg_int("transfer_trunc", 0, 1));
       rc.shrink = int(sim::cfg_int("transfer_shrink", 0, 1));
+      rc.moved_ticket = int(sim::cfg_int("moved_ticket", 0, 1));
       Shared sh;
       SH = &sh;
       sh.a.resize(size_t(rc.w.n));
